@@ -542,7 +542,21 @@ func (c *Ctx) bitop(op Op, in []*Term) *Term {
 			ids[a.ID] = true
 		}
 		for _, a := range args {
-			if a.Op == ONot && ids[a.Args[0].ID] {
+			compl := a.Op == ONot && ids[a.Args[0].ID]
+			if !compl && a.Op == ONot && a.Args[0].Op == op && op != OXor {
+				// not(op(subset of our operands)) next to those operands
+				compl = true
+				for _, t := range a.Args[0].Args {
+					if !ids[t.ID] {
+						compl = false
+						break
+					}
+				}
+			}
+			if compl && op == OXor && !(a.Op == ONot && ids[a.Args[0].ID]) {
+				compl = false
+			}
+			if compl {
 				switch op {
 				case OAnd:
 					return c.Const(w, 0)
@@ -570,6 +584,51 @@ func (c *Ctx) bitop(op Op, in []*Term) *Term {
 		inner := OAnd
 		if op == OAnd {
 			inner = OOr
+		}
+		// unit resolution: or(x, and(!x, y)) = or(x, y);  and(x, or(!x, y)) = and(x, y)
+		{
+			unit := map[int32]bool{}
+			for _, t := range args {
+				if t.Op != inner {
+					unit[t.ID] = true
+				}
+			}
+			for i, t := range args {
+				if t.Op != inner {
+					continue
+				}
+				var keep []*Term
+				for _, l := range t.Args {
+					neg := (l.Op == ONot && unit[l.Args[0].ID])
+					if !neg {
+						// !l is a unit?
+						for _, u := range args {
+							if u.Op == ONot && u.Args[0] == l {
+								neg = true
+								break
+							}
+						}
+					}
+					if !neg {
+						keep = append(keep, l)
+					}
+				}
+				if len(keep) != len(t.Args) {
+					rest := append([]*Term(nil), args[:i]...)
+					rest = append(rest, args[i+1:]...)
+					if len(keep) == 0 {
+						// inner op over nothing: and() = true, or() = false
+						if inner == OAnd {
+							rest = append(rest, c.True)
+						} else {
+							rest = append(rest, c.False)
+						}
+					} else {
+						rest = append(rest, c.bitop(inner, keep))
+					}
+					return c.bitop(op, rest)
+				}
+			}
 		}
 		lits := func(t *Term) []*Term {
 			if t.Op == inner {
@@ -843,6 +902,66 @@ func (c *Ctx) Ite(cond, a, b *Term) *Term {
 	if a.Op == OIte && a.Args[2] == b {
 		return c.Ite(c.And(cond, a.Args[0]), a.Args[1], b)
 	}
+	// factor common operands of an AC operator out of both arms:
+	//   ite(c, op(S,X), op(S,Y)) = op(S, ite(c, op(X), op(Y)))      (op in xor, add, or, and)
+	// this turns "h = cond ? h^k : h" chains into flat xors/sums that cancel syntactically
+	if a.W > 1 {
+		for _, op := range [...]Op{OXor, OAdd, OOr, OAnd} {
+			if a.Op != op && b.Op != op {
+				continue
+			}
+			as, bs := []*Term{a}, []*Term{b}
+			if a.Op == op {
+				as = a.Args
+			}
+			if b.Op == op {
+				bs = b.Args
+			}
+			inB := map[int32]int{}
+			for _, t := range bs {
+				inB[t.ID]++
+			}
+			var common, ra []*Term
+			for _, t := range as {
+				if inB[t.ID] > 0 {
+					inB[t.ID]--
+					common = append(common, t)
+				} else {
+					ra = append(ra, t)
+				}
+			}
+			if len(common) == 0 {
+				continue
+			}
+			var rb []*Term
+			for _, t := range bs {
+				if n := inB[t.ID]; n > 0 {
+					inB[t.ID]--
+					rb = append(rb, t)
+				}
+			}
+			ident := c.Const(a.W, 0)
+			if op == OAnd {
+				ident = c.Const(a.W, Mask(a.W))
+			}
+			mkop := func(ts []*Term) *Term {
+				if len(ts) == 0 {
+					return ident
+				}
+				switch op {
+				case OXor:
+					return c.Xor(ts...)
+				case OAdd:
+					return c.Add(ts...)
+				case OOr:
+					return c.Or(ts...)
+				}
+				return c.And(ts...)
+			}
+			inner := c.Ite(cond, mkop(ra), mkop(rb))
+			return mkop(append(common, inner))
+		}
+	}
 	// bit-slice when both arms are concats (or concat vs const)
 	if a.W > 1 && ((a.Op == OConcat && (b.Op == OConcat || b.Op == OConst)) || (b.Op == OConcat && a.Op == OConst)) {
 		var cuts uint64
@@ -901,6 +1020,48 @@ func (c *Ctx) Eq(a, b *Term) *Term {
 	}
 	if r, ok := c.lift2(a, b, c.Eq); ok {
 		return r
+	}
+	// xor-sums: cancel common operands, eq(xor(S,X), xor(S,Y)) = eq(xor(X), xor(Y))
+	if a.Op == OXor || b.Op == OXor {
+		as, bs := []*Term{a}, []*Term{b}
+		if a.Op == OXor {
+			as = a.Args
+		}
+		if b.Op == OXor {
+			bs = b.Args
+		}
+		inB := map[int32]bool{}
+		for _, t := range bs {
+			inB[t.ID] = true
+		}
+		nc := 0
+		for _, t := range as {
+			if inB[t.ID] {
+				nc++
+			}
+		}
+		if nc > 0 {
+			var ra, rb []*Term
+			inA := map[int32]bool{}
+			for _, t := range as {
+				inA[t.ID] = true
+				if !inB[t.ID] {
+					ra = append(ra, t)
+				}
+			}
+			for _, t := range bs {
+				if !inA[t.ID] {
+					rb = append(rb, t)
+				}
+			}
+			mk := func(ts []*Term) *Term {
+				if len(ts) == 0 {
+					return c.Const(a.W, 0)
+				}
+				return c.Xor(ts...)
+			}
+			return c.Eq(mk(ra), mk(rb))
+		}
 	}
 	if b.IsConst() {
 		switch a.Op {
